@@ -15,7 +15,7 @@ ID = 'C15'
 LEVEL = 'exploration'
 WORKERS = {'quick': 1, 'thorough': 12}
 BUDGET_S = {'quick': 40, 'thorough': 200}
-REQUIRED_COUNTERS = ['hw_values', 'monobit_values', 'value_values', 'disc_slices', 'nb_words_groups']
+REQUIRED_COUNTERS = ['hw_values', 'monobit_values', 'value_values', 'disc_slices', 'nb_words_groups', 'model_reuse_calls', 'long_axis_cases']
 RULE = ('cases: exhaustive uint8/uint16 popcount (flag exhaustive), per-byte-lane exhaustive + lane pairs + random for '
         'uint32/uint64, nb_words 1..8 on every axis of random 1-4-D shapes (lengths not divisible included), Monobit bit x '
         'dtype grid, Value, five discriminants on random float arrays with NaN patterns on every axis; a case is '
@@ -58,6 +58,11 @@ def cases(tier, seed):
         out.append(dict(gen='value', ndim=int(rs.integers(1, 5)), sub=int(rs.integers(2 ** 62))))
     for k in range(n_rand * 2):
         out.append(dict(gen='disc', ndim=int(rs.integers(2, 5)), sub=int(rs.integers(2 ** 62)), nanmode=k % 5))
+    for k in range(6 if tier == 'quick' else 120):
+        out.append(dict(gen='disc', ndim=2, long_axis=True, sub=int(rs.integers(2 ** 62)), nanmode=[0, 1, 3][k % 3], must=k < 3))
+    # model instances are reused batch after batch: the same instance called again must not remember the previous call
+    for k in range(20 if tier == 'quick' else 600):
+        out.append(dict(gen='model_reuse', sub=int(rs.integers(2 ** 62)), must=k < 4))
     return out
 
 
@@ -154,6 +159,36 @@ def run_case(case):
         t.check(list(got.shape) == exp_shape and np.array_equal(np.asarray(got).astype('int64'), exp), 'hw_nb_words',
                 lambda: dict(dtype=str(dt), shape=shape, axis=axis, nb_words=k, got=np.asarray(got).tolist()[:4], expected=exp.tolist()[:4]))
         sig = f'hw_words|{dt}|{shape}|{axis}|{k}'
+    elif g == 'model_reuse':
+        dt = np.dtype(UDT[int(rng.integers(4))])
+        k = int(rng.choice([1, 2, 3, 4, 8]))
+        ndim = int(rng.integers(1, 4))
+        axis = int(rng.integers(0, ndim))
+        shape = [int(rng.integers(1, 5)) for _ in range(ndim)]
+        shape[axis] = k * int(rng.integers(1, 5))
+        kind = ['hw', 'monobit', 'value'][int(rng.integers(3))]
+        m = scared.HammingWeight(nb_words=k, expected_dtype=dt) if kind == 'hw' else scared.Monobit(int(rng.integers(0, 8))) if kind == 'monobit' else scared.Value()
+        kept = []
+        for call in range(4):
+            arr = _ro(rng.integers(0, np.iinfo(dt).max, shape, dtype=dt, endpoint=True))
+            got = m(arr, axis=axis) if kind == 'hw' else m(arr)
+            if kind == 'hw':
+                pc = _popcount_oracle(arr)
+                exp = np.add.reduceat(pc, np.arange(0, shape[axis], k), axis=axis) if k > 1 else pc
+            elif kind == 'monobit':
+                exp = (arr.astype('uint64') >> np.uint64(m.bit)) & np.uint64(1)
+            else:
+                exp = arr
+            t.count('model_reuse_calls')
+            t.count('hw_values' if kind == 'hw' else 'monobit_values' if kind == 'monobit' else 'value_values', arr.size)
+            t.check(np.shape(got) == np.shape(exp) and np.array_equal(np.asarray(got).astype('int64'), np.asarray(exp).astype('int64')), 'model_result_depends_on_earlier_calls',
+                    lambda: dict(model=kind, dtype=str(dt), shape=shape, axis=axis, nb_words=k, call=call))
+            for (old, copy_, c0) in kept:
+                t.check(np.array_equal(old, copy_), 'earlier_result_overwritten_by_later_call', lambda: dict(model=kind, dtype=str(dt), shape=shape, nb_words=k, call=call, earlier_call=c0))
+            if kind != 'value':
+                kept.append((got, np.array(got, copy=True), call))
+        t.count('nb_words_groups', 1)
+        sig = f'model_reuse|{kind}|{dt}|{shape}|{axis}|{k}'
     elif g == 'hw_rejects':
         # out-of-domain inputs must be refused, not silently mis-computed (signed, float, wrong expected dtype)
         for arr, kw in [(np.array([[1, 2]], dtype='int8'), {}), (np.array([[1.0]], dtype='float32'), {}),
@@ -204,6 +239,12 @@ def run_case(case):
     elif g == 'disc':
         ndim = case['ndim']
         shape = [int(rng.integers(1, 6)) for _ in range(ndim)]
+        if case.get('long_axis'):
+            # results of a real attack: thousands of samples, with whole windows of NaN (constant samples)
+            ndim = 2
+            shape = [int(rng.integers(1, 4)), int(rng.choice([4096, 4097, 8191, 9000, 12000, 16385]))]
+            if rng.random() < 0.5:
+                shape = shape[::-1]
         dt = ['float32', 'float64'][int(rng.integers(2))]
         arr = rng.normal(0, 10, shape).astype(dt)
         # integers-valued floats half of the time so that sums are exact whatever the order
@@ -224,9 +265,22 @@ def run_case(case):
         elif mode == 4:
             arr[rng.random(shape) < 0.2] = np.nan
             arr = -np.abs(arr)     # all negative: max of abs / opposite of min differ from plain max
+        if case.get('long_axis'):
+            la = int(np.argmax(shape))
+            for _ in range(int(rng.integers(1, 4))):
+                a0 = int(rng.choice([0, 1024, 2048, 4096, 8192, int(rng.integers(0, shape[la]))]))
+                ln = int(rng.choice([1024, 4096, 4097, shape[la]]))
+                sl = [slice(None)] * 2
+                sl[la] = slice(a0, a0 + ln)
+                other = int(rng.integers(shape[1 - la]))
+                sl[1 - la] = other
+                arr[tuple(sl)] = np.nan
+            t.count('long_axis_cases')
         arr = _ro(arr)
         snap = arr.tobytes()
         axis = int(rng.integers(0, ndim))
+        if case.get('long_axis'):
+            axis = int(np.argmax(shape))
         use_default = axis == ndim - 1 and bool(rng.integers(2))
         for name in ['nanmax', 'maxabs', 'opposite_min', 'nansum', 'abssum']:
             f = getattr(scared, name)
